@@ -179,6 +179,11 @@ func (s *State) doCall(call *ssa.Call, cc *ssa.CallCommon) ([]*State, bool) {
 	if key == "sort::Search" {
 		return s.sortSearch(call, args)
 	}
+	if key == "sort::Sort" || key == "sort::Stable" {
+		if s.sortSort(call, cc) {
+			return nil, false
+		}
+	}
 	if key == "sort::Slice" || key == "sort::SliceStable" {
 		if s.sortSlice(call, cc, args) {
 			return nil, false
@@ -919,6 +924,96 @@ func (s *State) sortSearch(call *ssa.Call, args []Value) ([]*State, bool) {
 	})
 	next, _ := stage2(s1)
 	return append(next, s), true
+}
+
+// sortSort: sort.Sort(x) / sort.Sort(sort.Reverse(x)) where x is a slice type whose Less method has a contract of the
+// form `ensures result <==> E`: the elements are permuted and no later element is Less than an earlier one (reversed:
+// no earlier element is Less than a later one). Len and Swap are taken to be the usual ones (checked: the type's
+// underlying type is a slice).
+func (s *State) sortSort(call *ssa.Call, cc *ssa.CallCommon) bool {
+	c := s.C
+	arg := cc.Args[0]
+	reversed := false
+	if inner, ok := arg.(*ssa.Call); ok {
+		if f := inner.Call.StaticCallee(); f != nil && funcKey(f) == "sort::Reverse" && len(inner.Call.Args) == 1 {
+			reversed = true
+			arg = inner.Call.Args[0]
+		}
+	}
+	mi, ok := arg.(*ssa.MakeInterface)
+	if !ok {
+		return false
+	}
+	named, ok := types.Unalias(mi.X.Type()).(*types.Named)
+	if !ok {
+		return false
+	}
+	st, ok := named.Underlying().(*types.Slice)
+	if !ok {
+		return false
+	}
+	var less *ssa.Function
+	for i := 0; i < named.NumMethods(); i++ {
+		if named.Method(i).Name() == "Less" {
+			less = c.P.Prog.FuncValue(named.Method(i))
+		}
+	}
+	if less == nil || len(less.Params) != 3 {
+		return false
+	}
+	sp := c.SS.specFor(less)
+	if sp == nil || len(sp.Ensures) != 1 {
+		return false
+	}
+	bin, ok := sp.Ensures[0].E.(*EBin)
+	if !ok || (bin.Op != "<==>" && bin.Op != "==") {
+		return false
+	}
+	if id, ok := bin.X.(*EIdent); !ok || id.Name != "result" {
+		return false
+	}
+	xs := s.term(mi.X)
+	A0, A1 := s.permuteSlice(xs, st)
+	_ = A0
+	_ = A1
+	qi, qj := c.fresh("q_i"), c.fresh("q_j")
+	env := &SpecEnv{S: s, C: c, Heap: s.Heap, Cells: s.Cells, Vars: map[string]TV{}, Pkg: c.pkgOf(less), Ghost: s.Ghost}
+	env.Vars[less.Params[0].Name()] = c.mkTV(xs, mi.X.Type())
+	env.Vars["this"] = c.mkTV(xs, mi.X.Type())
+	a, b := qj, qi // forbidden: Less(later, earlier)
+	if reversed {
+		a, b = qi, qj // reversed order: forbidden Less(earlier, later)
+	}
+	env.Vars[less.Params[1].Name()] = TV{T: a, Ty: tyInt, Sort: "Int"}
+	env.Vars[less.Params[2].Name()] = TV{T: b, Ty: tyInt, Sort: "Int"}
+	env.markBound(less.Params[1].Name())
+	env.markBound(less.Params[2].Name())
+	t, err := env.evalBool(bin.Y)
+	if err != nil {
+		panic(evalErr(fmt.Sprintf("%s:%d: contract of %s: %v", sp.File, sp.Line, funcKey(less), err)))
+	}
+	s.assert(fmt.Sprintf("(forall ((%s Int) (%s Int)) (=> (and (<= 0 %s) (< %s %s) (< %s (s.len %s))) (not %s)))", qi, qj, qi, qi, qj, qj, xs, t))
+	c.assume("A-LIB: sort.Sort leaves a permutation of the elements, ordered by the type's Less as stated by the contract of " + funcKey(less) + " (Len/Swap of a slice type)")
+	return true
+}
+
+// permuteSlice havocs the window of a slice and assumes that the new content is a permutation of the old one (every new
+// element is an old one and vice versa; cells outside the window are unchanged). Returns the old and new backing arrays.
+func (s *State) permuteSlice(xs Term, st *types.Slice) (Term, Term) {
+	c := s.C
+	cn, cs := c.elemComp(st.Elem())
+	E := s.comp(cn, cs)
+	es := c.sortOf(st.Elem())
+	A0 := s.name("srt0", "(Array Int "+es+")", fmt.Sprintf("(select %s (s.base %s))", E, xs))
+	A1 := s.freshConst("srt1", "(Array Int "+es+")")
+	s.setComp(cn, cs, fmt.Sprintf("(store %s (s.base %s) %s)", E, xs, A1))
+	lo := fmt.Sprintf("(s.off %s)", xs)
+	hi := fmt.Sprintf("(+ (s.off %s) (s.len %s))", xs, xs)
+	p, q := c.fresh("q_p"), c.fresh("q_q")
+	s.assert(fmt.Sprintf("(forall ((%s Int)) (! (=> (and (<= %s %s) (< %s %s)) (exists ((%s Int)) (and (<= %s %s) (< %s %s) (= (select %s %s) (select %s %s))))) :pattern ((select %s %s))))", p, lo, p, p, hi, q, lo, q, q, hi, A1, p, A0, q, A1, p))
+	s.assert(fmt.Sprintf("(forall ((%s Int)) (! (=> (and (<= %s %s) (< %s %s)) (exists ((%s Int)) (and (<= %s %s) (< %s %s) (= (select %s %s) (select %s %s))))) :pattern ((select %s %s))))", q, lo, q, q, hi, p, lo, p, p, hi, A1, p, A0, q, A0, q))
+	s.assert(fmt.Sprintf("(forall ((%s Int)) (! (=> (not (and (<= %s %s) (< %s %s))) (= (select %s %s) (select %s %s))) :pattern ((select %s %s))))", p, lo, p, p, hi, A1, p, A0, p, A1, p))
+	return A0, A1
 }
 
 // sortSlice: sort.Slice(x, less) where less is a closure with a contract of the form `ensures result <==> E`.
